@@ -158,6 +158,22 @@ class C20(Check):
                 ref = obs
             elif obs != ref:
                 ctx.violation("order-depends-on-initial-order", case, f"{obs!r} != {ref!r}")
+            # history: rename in place (as the chromosome namer does) and sort the same object again
+            try:
+                olds = [s.name for s in asm.scaffolds]
+                for s, new in zip(asm.scaffolds, olds[1:] + olds[:1]):
+                    s.name = new
+                again = [s.name for s in asm.scaffolds_sorted_by_name()]
+                ka = [key(n) for n in again]
+                asm.smart_sort_scaffolds()
+                again2 = [(s.rank, key(s.name)) for s in asm.scaffolds]
+            except Exception as e:  # noqa: BLE001
+                ctx.violation(f"sort-raises:{type(e).__name__}", case, f"re-sorting after rename: {e!r}")
+                return
+            if sorted(again) != sorted(names) or any(ka[i] > ka[i + 1] for i in range(len(ka) - 1)):
+                ctx.violation("resort-after-rename-not-ordered", case, f"{again!r}")
+            if any(again2[i] > again2[i + 1] for i in range(len(again2) - 1)):
+                ctx.violation("smart-resort-after-rename-not-ordered", case, f"{again2!r}")
         ctx.nontrivial += 1
         ctx.outcome(h64(ref))
 
@@ -228,11 +244,11 @@ class C20(Check):
         elif kind == "rank":
             names = ["SUPER_2", "SUPER_10", "X", "scaffold_3", "A"]
             for sub in itertools.combinations(names, 3):
-                for ranks in itertools.product((1, 2, 3), repeat=3):
+                for ranks in itertools.product((0, 1, 2, 3, 4), repeat=3):
                     self.case_perm(sub, ranks, ctx)
             # rank beats name: a rank-1 scaffold always precedes a rank-2/3 one
             for a, b in itertools.permutations(POOL, 2):
-                for ra, rb in ((1, 2), (1, 3), (2, 3)):
+                for ra, rb in ((1, 2), (1, 3), (2, 3), (0, 1), (0, 3), (3, 4), (0, 4), (2, 4)):
                     case = ["rankpair", a, ra, b, rb]
                     ctx.cur = case
                     ctx.evaluations += 1
